@@ -238,8 +238,13 @@ Definition split_one (s : list Z) : result (list Z * list Z) :=
 (* for digit in data[1:-6]: number = (number << 5) + digit *)
 Definition number_of (ds : list Z) : Z := fold_left (fun n d => Z.shiftl n 5 + d) ds 0.
 
+(* regtest_prefix + "1" *)
+Definition hrp_bcrt1 : list Z := [98;99;114;116;49].
+
+(* decode_bech32 after the fixes 00bc7dc (the regtest branch requires "bcrt1") and cfb8181
+   (BIP173 padding: at most 4 bits, all zero; checked before the shift and before to_bytes) *)
 Definition decode_bech32 (s : list Z) : result (Z * Z * bytes) :=
-  '(hrp, raw_data) <- (if starts_with hrp_bcrt s then Ok (hrp_bcrt, skipn 5 s)
+  '(hrp, raw_data) <- (if starts_with hrp_bcrt1 s then Ok (hrp_bcrt, skipn 5 s)
                        else split_one s) ;;
   network <- net_for_prefix hrp ;;
   data <- mapr bech32_index raw_data ;;
@@ -253,6 +258,10 @@ Definition decode_bech32 (s : list Z) : result (Z * Z * bytes) :=
         let number := number_of (firstn (length data - 7)%nat (skipn 1 data)) in
         let num_bytes := (zlen data - 7) * 5 / 8 in
         let bits_to_ignore := (zlen data - 7) * 5 mod 8 in
+        (* if bits_to_ignore > 4 or number & ((1 << bits_to_ignore) - 1): raise *)
+        if (4 <? bits_to_ignore) || negb (Z.land number (Z.shiftl 1 bits_to_ignore - 1) =? 0)
+        then Err
+        else
         let number := Z.shiftr number bits_to_ignore in
         if num_bytes <? 0 then Err                       (* to_bytes(negative length) *)
         else
